@@ -385,7 +385,7 @@ class Splitter:
             self._unaccepted_mark = comma_mark
             raise BlockAbortedException(
                 abort_reason=f"Expected comma after entry key, but found {comma_mark.group(0)}",
-                end_index=comma_mark.end(),
+                end_index=comma_mark.start(),
             )
         else:
             self._open_brackets += 1
@@ -425,7 +425,7 @@ class Splitter:
             raise BlockAbortedException(
                 abort_reason="Expected equals sign after field key,"
                 f" but found {equals_mark.group(0)}",
-                end_index=equals_mark.end(),
+                end_index=equals_mark.start(),
             )
         key = self.bibstr[m.end() + 1 : equals_mark.start()].strip()
         value_start = equals_mark.end()
